@@ -304,6 +304,8 @@ fn high_bits_to_u64(v: &BigUint) -> u64 {
                 // See: https://en.wikipedia.org/wiki/Rounding#Rounding_to_prepare_for_shorter_precision
 
                 if digit_bits - bits_want != 0 {
+                    #[cfg(num_bigint_verif)]
+                    crate::verif_probe::hit(crate::verif_probe::Probe::F64_STICKY);
                     // XXX Conversion is useless if already 64-bit.
                     #[allow(clippy::useless_conversion)]
                     let masked = u64::from(*d) << (64 - (digit_bits - bits_want) as u32);
@@ -384,6 +386,8 @@ impl ToPrimitive for BigUint {
         let exponent = self.bits() - u64::from(fls(mantissa));
 
         if exponent > f64::MAX_EXP as u64 {
+            #[cfg(num_bigint_verif)]
+            crate::verif_probe::hit(crate::verif_probe::Probe::F64_INF);
             Some(f64::INFINITY)
         } else {
             Some((mantissa as f64) * 2.0f64.powi(exponent as i32))
@@ -700,6 +704,8 @@ pub(super) fn to_radix_digits_le(u: &BigUint, radix: u32) -> Vec<u8> {
     // performance. We can mitigate this by dividing into chunks of a larger base first.
     // The threshold for this was chosen by anecdotal performance measurements to
     // approximate where this starts to make a noticeable difference.
+        #[cfg(num_bigint_verif)]
+        crate::verif_probe::hit(crate::verif_probe::Probe::RADIX_OUT_BIGBASE);
     if digits.data.len() >= 64 {
         let mut big_base = BigUint::from(base);
         let mut big_power = 1usize;
